@@ -54,8 +54,12 @@ func genArg(t *rapid.T) Arg {
 		return Arg{U: "", N: 0}
 	}
 	target := rapid.SampledFrom([]int{0, 1, 2, 3, 10, 100, 4094, 4095, 4096, 4097, 4098, 8191, 8192, 8193}).Draw(t, "len")
-	if rapid.IntRange(0, 39).Draw(t, "huge") == 0 {
-		target = 70000
+	if rapid.IntRange(0, 24).Draw(t, "huge") == 0 {
+		// around 64 KiB and its multiples (whatever an implementation reads a large argument in)
+		target = rapid.SampledFrom([]int{65534, 65535, 65536, 65537, 70000, 131071, 131072, 131073, 200000, 262144}).Draw(t, "hugelen")
+		if len(u) > 1 && rapid.Bool().Draw(t, "exact") {
+			u = u[:1] // a one-byte unit hits the length exactly
+		}
 	}
 	n := target / len(u)
 	if target > 0 && n == 0 {
@@ -443,7 +447,7 @@ type MalCase struct {
 
 var mutations = []string{"bareLF-header", "bareLF-bulk", "noCR", "shortLen", "longLen", "lenNotNumber", "lenEmpty", "lenNegative", "lenHuge",
 	"arrLenNotNumber", "arrLenNegative", "arrLenHuge", "truncate", "typeByte", "inlineGarbage", "nonCommandValues", "raw", "lonelyLF",
-	"embeddedShort", "embeddedShort", "embeddedLong"}
+	"embeddedShort", "embeddedShort", "embeddedLong", "lenWrap", "arrLenWrap"}
 
 func mutate(m string, param int, raw string, unit []byte) []byte {
 	// unit is "*3\r\n$3\r\nSET\r\n$<n>\r\n<key>\r\n$1\r\nx\r\n"
@@ -468,6 +472,14 @@ func mutate(m string, param int, raw string, unit []byte) []byte {
 	case "lenHuge":
 		h := []string{"2147483648", "4611686018427387904", "9223372036854775807", "18446744073709551616", "9223372036854775806"}[param%5]
 		return []byte(strings.Replace(s, "$3\r\nSET", "$"+h+"\r\nSET", 1))
+	case "lenWrap":
+		// the announced length is the right one plus a multiple of 2^64 (or 2^32): a digit loop without an
+		// overflow check reads it as the right one
+		h := []string{"18446744073709551619", "36893488147419103235", "4294967299", "184467440737095516163"}[param%4]
+		return []byte(strings.Replace(s, "$3\r\nSET", "$"+h+"\r\nSET", 1))
+	case "arrLenWrap":
+		h := []string{"18446744073709551619", "36893488147419103235", "4294967299"}[param%3]
+		return []byte(strings.Replace(s, "*3\r\n", "*"+h+"\r\n", 1))
 	case "arrLenNotNumber":
 		return []byte(strings.Replace(s, "*3\r\n", "*three\r\n", 1))
 	case "arrLenNegative":
